@@ -53,7 +53,7 @@ fn consistent(store: &AnnotationStore) -> Result<(), String> {
     {
         let findings = crate::dumpcheck::check(&store.verif_dump(), None);
         if let Some(f) = findings.first() {
-            return Err(format!("{:?}", f).chars().take(160).collect());
+            return Err(format!("dump:{}", f.0));
         }
     }
     // the store can be observed and written without panic
@@ -117,7 +117,7 @@ fn run_input(inp: &Input, dir: &str) -> String {
         Ok(Ok(None)) => "ok\t".to_string(),
         Ok(Ok(Some(store))) => match guard(|| consistent(&store)) {
             Ok(Ok(())) => "ok\tstore".to_string(),
-            Ok(Err(why)) => format!("inconsistent\t{}", normalise_msg(&why)),
+            Ok(Err(why)) => format!("inconsistent\t{}", if why.starts_with("dump:") { why.clone() } else { normalise_msg(&why) }),
             Err(p) => format!("inconsistent\tchecker-panicked:{}", p.class()),
         },
     };
@@ -132,7 +132,7 @@ pub fn child(p: &Params) {
         // address space: an allocation sized by a number in the input must fail here, not take the machine down
         let lim = libc::rlimit { rlim_cur: 3 << 30, rlim_max: 3 << 30 };
         libc::setrlimit(libc::RLIMIT_AS, &lim);
-        let cpu = libc::rlimit { rlim_cur: 120, rlim_max: 125 };
+        let cpu = libc::rlimit { rlim_cur: 30, rlim_max: 32 };
         libc::setrlimit(libc::RLIMIT_CPU, &cpu);
         let core = libc::rlimit { rlim_cur: 0, rlim_max: 0 };
         libc::setrlimit(libc::RLIMIT_CORE, &core);
@@ -481,15 +481,35 @@ fn run_batches(p: &Params, rep: &mut Report, inputs: Vec<Input>) {
         let childdir = format!("{}/c19-child-{}", p.workdir, p.shard);
         let mut child = std::process::Command::new(&exe)
             .args(["C19CHILD", "--variant", &batchfile, "--workdir", &childdir])
+            .stdin(std::process::Stdio::null())
             .stdout(std::process::Stdio::piped())
             .stderr(std::process::Stdio::null())
             .spawn()
             .expect("spawn child");
         let stdout = child.stdout.take().unwrap();
-        let reader = std::io::BufReader::new(stdout);
+        // lines arrive through a channel so that a child that neither finishes nor dies is noticed (wall clock, generous)
+        let (tx, rx) = std::sync::mpsc::channel::<String>();
+        std::thread::spawn(move || {
+            let reader = std::io::BufReader::new(stdout);
+            for line in reader.lines().flatten() {
+                if tx.send(line).is_err() {
+                    break;
+                }
+            }
+        });
         let mut started: Option<usize> = None;
         let mut done = 0usize;
-        for line in reader.lines().flatten() {
+        let mut stalled = false;
+        loop {
+            let line = match rx.recv_timeout(std::time::Duration::from_secs(180)) {
+                Ok(l) => l,
+                Err(std::sync::mpsc::RecvTimeoutError::Disconnected) => break,
+                Err(std::sync::mpsc::RecvTimeoutError::Timeout) => {
+                    stalled = true;
+                    let _ = child.kill();
+                    break;
+                }
+            };
             let parts: Vec<&str> = line.split('\t').collect();
             match parts.first() {
                 Some(&"START") => started = parts.get(1).and_then(|x| x.parse().ok()),
@@ -507,7 +527,17 @@ fn run_batches(p: &Params, rep: &mut Report, inputs: Vec<Input>) {
                     let size: usize = inp.files.values().map(|f| f.len()).sum::<usize>() + inp.main.len();
                     match outcome {
                         "panic" => rep.violation(format!("C19/{}/panic/{}", inp.kind, class), json!({"input": inp.to_json(), "panic": class})),
-                        "inconsistent" => rep.violation(format!("C19/{}/accepted-but-inconsistent/{}", inp.kind, class.chars().take(70).collect::<String>()), json!({"input": inp.to_json(), "finding": class})),
+                        "inconsistent" => {
+                            // two recorded root causes get their own signature
+                            let sig = if inp.kind == "cbor-store" && class.starts_with("dump:") {
+                                "C19/cbor-store/accepted-but-inconsistent/explained:cbor-decoding-trusts-the-stored-indices".to_string()
+                            } else if class.starts_with("dump:") && class.ends_with("/duplicate") {
+                                format!("C19/{}/accepted-but-inconsistent/explained:same-item-twice-in-one-annotation-is-indexed-twice", inp.kind)
+                            } else {
+                                format!("C19/{}/accepted-but-inconsistent/{}", inp.kind, class.chars().take(70).collect::<String>())
+                            };
+                            rep.violation(sig, json!({"input": inp.to_json(), "finding": class}))
+                        }
                         _ => {}
                     }
                     // time proportional to the input: generous bound of 2 s + 1 ms per byte
@@ -525,13 +555,15 @@ fn run_batches(p: &Params, rep: &mut Report, inputs: Vec<Input>) {
             // the child died while working on input i
             use std::os::unix::process::ExitStatusExt;
             let inp = batch[i];
-            let how = match status.signal() {
+            let how = if stalled {
+                "no-answer-in-180s(blocked)".to_string()
+            } else { match status.signal() {
                 Some(libc::SIGABRT) => "abort(allocation-failure-or-abort)".to_string(),
                 Some(libc::SIGSEGV) => "segfault".to_string(),
                 Some(libc::SIGXCPU) | Some(libc::SIGKILL) => "cpu-limit(does-not-terminate)".to_string(),
                 Some(s) => format!("signal-{}", s),
                 None => format!("exit-{}", status.code().unwrap_or(-1)),
-            };
+            } };
             rep.eval();
             rep.violation(format!("C19/{}/{}/{}", inp.kind, how, inp.mutation), json!({"input": inp.to_json(), "status": format!("{:?}", status)}));
             next += i + 1;
@@ -550,7 +582,7 @@ fn run_batches(p: &Params, rep: &mut Report, inputs: Vec<Input>) {
 }
 
 pub fn run(p: &Params, rep: &mut Report) {
-    rep.rule = "valid STAM JSON / STAM CSV / CBOR serialisations of stores reached by seeded histories, mutated: pretty JSON edited line-wise (delete / duplicate / swap lines, extreme numbers, temporary ids with extreme numbers, @type swaps, references rewired to other strings of the document, values retyped, truncation, alignment flips, double edits), CSV cells (empty, surplus, missing, bad numbers, selector-kind lists of the wrong length, doubled lists, cells from other rows, header swapped) in manifest, annotation and dataset files, CBOR truncated at every length <= 512 and beyond, bit flips and length bytes; plus single annotations for AnnotationBuilder::from_json_str, annotation lists for annotate_from_file, datasets for AnnotationDataSet::from_file and strings for the Cursor / Type / SelectorKind / DataFormat parsers. Every input is loaded in a child process (RLIMIT_AS 3 GiB, RLIMIT_CPU 120 s per batch of 200) under catch_unwind; a returned store goes through the dump self-consistency checker, the canonical observation and JSON serialisation. distinct_nontrivial = distinct (loader, mutation, outcome, error class) observed".into();
+    rep.rule = "valid STAM JSON / STAM CSV / CBOR serialisations of stores reached by seeded histories, mutated: pretty JSON edited line-wise (delete / duplicate / swap lines, extreme numbers, temporary ids with extreme numbers, @type swaps, references rewired to other strings of the document, values retyped, truncation, alignment flips, double edits), CSV cells (empty, surplus, missing, bad numbers, selector-kind lists of the wrong length, doubled lists, cells from other rows, header swapped) in manifest, annotation and dataset files, CBOR truncated at every length <= 512 and beyond, bit flips and length bytes; plus single annotations for AnnotationBuilder::from_json_str, annotation lists for annotate_from_file, datasets for AnnotationDataSet::from_file and strings for the Cursor / Type / SelectorKind / DataFormat parsers. Every input is loaded in a child process (RLIMIT_AS 3 GiB, RLIMIT_CPU 30 s per batch of 200) under catch_unwind; a returned store goes through the dump self-consistency checker, the canonical observation and JSON serialisation. distinct_nontrivial = distinct (loader, mutation, outcome, error class) observed".into();
     rep.assumptions = vec![
         "time proportional to the input is judged with a bound of 2 s + 1 ms per byte per input".into(),
         "a child that dies is attributed to the input it had announced (START line flushed before each input)".into(),
